@@ -113,6 +113,7 @@ def run(repo, rep, tier):
     from . import c04 as _c04
     L.borrow(repo, rep, "R11.5", "C04", _c04.tales_details,
              ("no-input-guard", "stripped-both-sides", "slice-one-group", "tales-space", "prefix-width"), minimum=2)
+    L.option_defaults_rule(repo, rep, "R11.5", ("restricted_namespace",))
     L.state_rule(repo, rep)
 
 
